@@ -44,7 +44,10 @@ theorem uncondAdmits_eq (r : Restr) (u : Bytes) (hrel : getRelation u = userRelO
   | wild => simp
   | rel x =>
     simp only [Bool.false_and, Bool.not_false, Bool.and_true, ↓reduceIte]
-    by_cases h1 : x = [] <;> by_cases h2 : x = userRelOf u <;> simp [h1, h2]
+    have e1 : (x != []) = !(x == []) := rfl
+    have e2 : (x != userRelOf u) = !(x == userRelOf u) := rfl
+    rw [e1, e2]
+    cases (x == []) <;> cases (x == userRelOf u) <;> simp
 
 /-- the condition-independent part of `ctxOK` -/
 theorem ctxOK_none_eq (std : Std) (m : Model) (t : Tuple) :
@@ -59,7 +62,10 @@ theorem ctxOK_none_eq (std : Std) (m : Model) (t : Tuple) :
   unfold ctxOK Model.findCond
   cases t.cond with
   | none => rfl
-  | some p => obtain ⟨name, ctx⟩ := p; simp
+  | some p =>
+    obtain ⟨name, ctx⟩ := p
+    simp only [Bool.and_true]
+    cases m.conds.find? (·.name == name) <;> rfl
 
 /-- the loose condition clause of `restrLoose` -/
 def condLoose (rd : RelDef) (t : Tuple) : Bool :=
@@ -123,5 +129,168 @@ theorem validateCondition_ok_iff (std : Std) (m : Model) (rd : RelDef) (t : Tupl
         | true =>
           simp only [Bool.not_true, Bool.false_eq_true, ↓reduceIte, Bool.true_and]
           exact validateContext_ok_iff std cd ctx
+
+end OpenFGAVerif.Proofs.Validation
+
+namespace OpenFGAVerif.Proofs.Validation
+open OpenFGAVerif.Model.TupleStr OpenFGAVerif.Spec.TupleStr OpenFGAVerif.Proofs.TupleStr
+open OpenFGAVerif.Model.Validation OpenFGAVerif.Spec.Allowed
+open OpenFGAVerif.Model.Condition (Ctx Std)
+
+/-! ### the common normal form -/
+
+/-- clauses 1–4 of the specification with the loose condition clause, as a proposition -/
+def Core (std : Std) (m : Model) (t : Tuple) : Prop :=
+  grammarObjectB t.obj = true ∧
+  ∃ typ id td rd,
+    typed t.obj = some (typ, id) ∧ id ≠ [42] ∧ grammarRelationB t.rel = true ∧
+    m.types.find? (·.name == typ) = some td ∧ td.rels.find? (·.name == t.rel) = some rd ∧
+    rd.restrs.any (fun r => userMatches r t.user) = true ∧ condLoose rd t = true ∧
+    (!td.tuplesets.contains t.rel || (rd.direct && concreteObject t.user)) = true ∧
+    ctxOK std none m t = true
+
+theorem contextual_iff_core (std : Std) (m : Model) (t : Tuple) :
+    acceptedAsContextual std m t = true ↔ Core std m t := by
+  unfold acceptedAsContextual allowedWith Core
+  cases hty : typed t.obj with
+  | none => simp
+  | some p =>
+    obtain ⟨typ, id⟩ := p
+    dsimp only
+    cases hfind : m.types.find? (·.name == typ) with
+    | none => simp [hfind]
+    | some td =>
+      dsimp only
+      cases hrel : td.rels.find? (·.name == t.rel) with
+      | none => simp [hfind, hrel]
+      | some rd =>
+        simp only [restrLoose_eq, Bool.true_or, Bool.and_true, Bool.and_eq_true, bne_iff_ne, ne_eq]
+        constructor
+        · rintro ⟨⟨⟨hgo, hid⟩, hgr⟩, ⟨⟨hm, hc⟩, hts⟩, hctx⟩
+          exact ⟨hgo, typ, id, td, rd, rfl, hid, hgr, hfind, hrel, hm, hc, by simpa using hts, hctx⟩
+        · rintro ⟨hgo, typ', id', td', rd', he, hid, hgr, hfind', hrel', hm, hc, hts, hctx⟩
+          simp only [Option.some.injEq, Prod.mk.injEq] at he
+          obtain ⟨rfl, rfl⟩ := he
+          rw [hfind] at hfind'; cases hfind'
+          rw [hrel] at hrel'; cases hrel'
+          exact ⟨⟨⟨hgo, hid⟩, hgr⟩, ⟨⟨hm, hc⟩, by simpa using hts⟩, hctx⟩
+
+/-- the user facts the later steps need, for either shape -/
+theorem user_facts (u : Bytes) (h : grammarObjectB u = true ∨ grammarUsersetB u = true) :
+    getRelation u = userRelOf u ∧ isTypedWildcard u = isStar u := by
+  rcases h with h | h
+  · obtain ⟨t, i, s⟩ := objShape_of u h
+    exact ⟨by rw [s.getRelation_eq, s.userRelOf_eq], by rw [s.isTypedWildcard_eq, s.isStar_eq]⟩
+  · obtain ⟨t, i, r, s⟩ := usShape_of u h
+    exact ⟨by rw [s.getRelation_eq, s.userRelOf_eq], by rw [s.isTypedWildcard_eq, s.isStar_eq]⟩
+
+theorem userMatches_shape (r : Restr) (u : Bytes) (h : userMatches r u = true) :
+    grammarObjectB u = true ∨ grammarUsersetB u = true := by
+  unfold userMatches at h
+  cases hk : r.kind <;> rw [hk] at h <;> simp only [Bool.and_eq_true] at h
+  · exact Or.inl h.1
+  · exact Or.inl h.1
+  · exact Or.inr h.1
+
+theorem any_userMatches_shape (rd : RelDef) (u : Bytes) (h : rd.restrs.any (fun r => userMatches r u) = true) :
+    grammarObjectB u = true ∨ grammarUsersetB u = true := by
+  obtain ⟨r, _, hr⟩ := List.any_eq_true.mp h
+  exact userMatches_shape r u hr
+
+/-- with well-formed restrictions, a user that matches a restriction passes `ValidateUser` -/
+theorem validateUser_of_matches (m : Model) (rd : RelDef) (u : Bytes)
+    (hwf : ∀ r ∈ rd.restrs, (m.findType r.typ).isSome = true ∧
+      ∀ x, r.kind = .rel x → x ≠ [] ∧ ∃ rd', m.getRelation r.typ x = .found rd')
+    (h : rd.restrs.any (fun r => userMatches r u) = true) : validateUser m u = .ok () := by
+  obtain ⟨r, hr, hm⟩ := List.any_eq_true.mp h
+  obtain ⟨hty, hrl⟩ := hwf r hr
+  unfold userMatches at hm
+  cases hk : r.kind with
+  | obj =>
+    rw [hk] at hm; simp only [Bool.and_eq_true] at hm
+    obtain ⟨t, i, s⟩ := objShape_of u hm.1
+    rw [s.typed] at hm; simp only [Bool.and_eq_true, beq_iff_eq] at hm
+    rw [validateUser_obj s hm.1, hm.2.1]; exact hty
+  | wild =>
+    rw [hk] at hm; simp only [Bool.and_eq_true] at hm
+    obtain ⟨t, i, s⟩ := objShape_of u hm.1
+    rw [s.typed] at hm; simp only [Bool.and_eq_true, beq_iff_eq] at hm
+    rw [validateUser_obj s hm.1, hm.2.1]; exact hty
+  | rel x =>
+    rw [hk] at hm; simp only [Bool.and_eq_true] at hm
+    obtain ⟨t, i, r', s⟩ := usShape_of u hm.1
+    rw [s.typed] at hm; simp only [s.split2, Bool.and_eq_true, beq_iff_eq] at hm
+    rw [validateUser_us s hm.1, hm.2.1, hm.2.2]
+    exact ⟨hty, (hrl x hk).2⟩
+
+theorem restrs_wf_of (m : Model) (hwf : RestrsWF m) (typ rel : Bytes) (td : TypeDef) (rd : RelDef)
+    (hfind : m.types.find? (·.name == typ) = some td) (hrel : td.rels.find? (·.name == rel) = some rd) :
+    ∀ r ∈ rd.restrs, (m.findType r.typ).isSome = true ∧
+      ∀ x, r.kind = .rel x → x ≠ [] ∧ ∃ rd', m.getRelation r.typ x = .found rd' :=
+  hwf td (List.mem_of_find?_eq_some hfind) rd (List.mem_of_find?_eq_some hrel)
+
+theorem typeRestr_iff (rd : RelDef) (u : Bytes) (hne : NoEmptyRel rd)
+    (h : grammarObjectB u = true ∨ grammarUsersetB u = true) :
+    validateTypeRestr rd u = .ok () ↔ rd.restrs.any (fun r => userMatches r u) = true := by
+  rcases h with h | h
+  · obtain ⟨t, i, s⟩ := objShape_of u h
+    exact validateTypeRestr_obj s h hne
+  · obtain ⟨t, i, r, s⟩ := usShape_of u h
+    exact validateTypeRestr_us s h
+
+theorem userTypeOf_of_typed (o typ id : Bytes) (h : typed o = some (typ, id)) : userTypeOf o = typ := by
+  simp [userTypeOf, h]
+
+/-- **`ValidateTupleForWrite` accepts exactly `Core`** (model restrictions well-formed) -/
+theorem forWrite_iff_core (std : Std) (m : Model) (t : Tuple) (hwf : RestrsWF m) :
+    validateForWrite std m t = .ok () ↔ Core std m t := by
+  unfold validateForWrite validateUOR validateForRead
+  simp only [bind_ok_iff]
+  rw [validateObject_ok_iff, validateRelation_ok_iff]
+  constructor
+  · rintro ⟨⟨hU, ⟨hgo, typ, id, hty, hid, _⟩, hgr, rd, hrd⟩, hT, hM⟩
+    have htyp := userTypeOf_of_typed _ _ _ hty
+    rw [htyp] at hrd
+    obtain ⟨td, hfind, hrel⟩ := (getRelation_found_iff m typ t.rel rd).mp hrd
+    have hsh : grammarObjectB t.user = true ∨ grammarUsersetB t.user = true := by
+      cases h1 : grammarObjectB t.user with
+      | true => exact Or.inl rfl
+      | false =>
+        cases h2 : grammarUsersetB t.user with
+        | true => exact Or.inr rfl
+        | false => exact absurd hU (validateUser_neither h1 h2)
+    have hw := restrs_wf_of m hwf typ t.rel td rd hfind hrel
+    have hne : NoEmptyRel rd := fun r hr x hk => ((hw r hr).2 x hk).1
+    rw [getType_eq_userTypeOf, htyp, hrd] at hM
+    simp only [bind_ok_iff] at hM
+    obtain ⟨hTR, hC⟩ := hM
+    obtain ⟨f1, f2⟩ := user_facts t.user hsh
+    have hT' := (validateTupleset_ok_iff m t rd (by rw [htyp]; exact hrd)).mp hT
+    rw [htyp, isTupleset_of_find m typ t.rel td hfind] at hT'
+    have hC' := (validateCondition_ok_iff std m rd t f1 f2).mp hC
+    simp only [Bool.and_eq_true] at hC'
+    exact ⟨hgo, typ, id, td, rd, hty, hid, hgr, hfind, hrel, (typeRestr_iff rd t.user hne hsh).mp hTR, hC'.1, hT', hC'.2⟩
+  · rintro ⟨hgo, typ, id, td, rd, hty, hid, hgr, hfind, hrel, hm, hc, hts, hctx⟩
+    have htyp := userTypeOf_of_typed _ _ _ hty
+    have hrd : m.getRelation typ t.rel = .found rd := (getRelation_found_iff m typ t.rel rd).mpr ⟨td, hfind, hrel⟩
+    have hw := restrs_wf_of m hwf typ t.rel td rd hfind hrel
+    have hne : NoEmptyRel rd := fun r hr x hk => ((hw r hr).2 x hk).1
+    have hsh := any_userMatches_shape rd t.user hm
+    obtain ⟨f1, f2⟩ := user_facts t.user hsh
+    have hft : (m.findType typ).isSome = true := by simp [Model.findType, hfind]
+    refine ⟨⟨validateUser_of_matches m rd t.user hw hm, ⟨hgo, typ, id, hty, hid, hft⟩, hgr, rd, by rw [htyp]; exact hrd⟩, ?_, ?_⟩
+    · rw [validateTupleset_ok_iff m t rd (by rw [htyp]; exact hrd), htyp, isTupleset_of_find m typ t.rel td hfind]
+      exact hts
+    · rw [getType_eq_userTypeOf, htyp, hrd]
+      simp only [bind_ok_iff]
+      refine ⟨(typeRestr_iff rd t.user hne hsh).mpr hm, ?_⟩
+      rw [validateCondition_ok_iff std m rd t f1 f2]
+      simp [hc, hctx]
+
+/-- **the contextual-tuple path accepts exactly `acceptedAsContextual`** -/
+theorem contextualCheck_ok_iff (std : Std) (m : Model) (t : Tuple) (hwf : RestrsWF m) :
+    contextualCheck std m t = .ok () ↔ acceptedAsContextual std m t = true := by
+  unfold contextualCheck
+  rw [forWrite_iff_core std m t hwf, contextual_iff_core]
 
 end OpenFGAVerif.Proofs.Validation
